@@ -66,6 +66,20 @@ class Seq:
         return "seq %s\n%s\nend\n" % (self.label, "\n".join(self.ops))
 
 
+def reset_on_clear_ids():
+    """converter ids whose objects carry RESET_ON_CLEAR, as harness/lsr/gen.c read them off the tree under test
+    (none on the repaired tree; 3, 4, 5 before 88f0e06): the generator needs it to know which ratio a converter is at."""
+    import re
+    try:
+        txt = open(os.path.join(common.LEAN, "SoxrModel", "Lsr", "Generated.lean")).read()
+    except OSError:
+        return set()
+    return set(int(m.group(1)) for m in re.finditer(r"\((\d+), (true|false), (true|false)\)", txt) if m.group(2) == "true")
+
+
+RESET_IDS = set()
+
+
 class Track:
     """what the generator must know of the converter to stay inside the caller's contract of soxr.h: no input after the
     end of input has been taken (the engine stores through NULL then; documented as 'nor shall be available')."""
@@ -92,7 +106,7 @@ class Track:
 
     def reset(self):
         self.flushed = False
-        if self.cid in (0, 1, 2):
+        if self.cid not in RESET_IDS:
             self.locked = None
 
     def may_input(self):
@@ -405,7 +419,7 @@ def falsify(ctx, seqs, res, viol, known):
                     if math.isinf(rb):
                         allowed = "out-of-contract: src_ratio = inf"
                 if allowed == "F32":
-                    known.add("F32")
+                    known.setdefault("F32", (s, k))
                 elif allowed is None:
                     viol.append((s, k, "crash (%s) inside `%s` with in-contract arguments" % (status, op)))
                 break
@@ -450,8 +464,8 @@ def falsify(ctx, seqs, res, viol, known):
                         stats["totals_checked"] += 1
                         want = expected_total(tin, ratio_hist[0])
                         if tout not in want:
-                            if was_reset and cid in (3, 4, 5) and tout in expected_total(tin, since_reset_ratio):
-                                known.add("F31")
+                            if was_reset and since_reset_ratio is not None and tout in expected_total(tin, since_reset_ratio):
+                                known.setdefault("F31", (s, k))
                             else:
                                 viol.append((s, k, "total output %d for %d input frames at ratio %r, expected %s" % (tout, tin, ratio_hist[0], sorted(want))))
                     drained = True
@@ -465,7 +479,7 @@ def falsify(ctx, seqs, res, viol, known):
                 if valid_run and kv.get("rc") != "0":
                     viol.append((s, k, "src_reset returned an error: " + r))
                 was_reset = True
-                if cid in (0, 1, 2):
+                if cid not in RESET_IDS:
                     since_reset_ratio = None
                 tin = tout = 0; ended = drained = False; ratio_hist = []
             elif t[0] == "setratio" and t[2] == "1":
@@ -504,8 +518,8 @@ def falsify(ctx, seqs, res, viol, known):
                         stats["totals_checked"] += 1
                         if gen not in want:
                             viol.append((s, k, "src_simple delivered %d frames for %d at ratio %r, expected %s" % (gen, used, rb, sorted(want))))
-                elif "garbage" in r:
-                    known.add("F33")
+                elif kv.get("used", "0") != "0" or kv.get("gen", "0") != "0":
+                    known.setdefault("F33", (s, k))
     return stats
 
 
@@ -541,8 +555,8 @@ def reset_equals_fresh(ctx, exe, viol, known):
         rb_ = [x[1] for x in res.get(b.label, ([], ""))[0]][-tail - 1:-1]
         n += 1
         if ra != rb_:
-            if cid in (3, 4) and abs(1 / r0 - 1 / r1) >= 1e-15:
-                known.add("F31")
+            if cid in RESET_IDS and abs(1 / r0 - 1 / r1) >= 1e-15:
+                known.setdefault("F31", (a, len(a.ops) - 1))
             else:
                 viol.append((a, len(a.ops) - tail - 1, "after src_reset the converter does not behave like a new one: %s vs fresh %s (id %d, ratio %r then %r)" % (ra[:4], rb_[:4], cid, r0, r1)))
     ctx.count("reset_vs_fresh_pairs", n)
@@ -708,6 +722,9 @@ def run(ctx):
     if getattr(ctx, "replay", None):
         return replay(ctx, exe)
 
+    global RESET_IDS
+    RESET_IDS = reset_on_clear_ids()
+    ctx.cov["reset_on_clear_converter_ids"] = sorted(RESET_IDS)
     t0 = time.time()
     seqs = gen_sequences(ctx)
     corpus = os.path.join(common.VERIF, "corpus", "C19")
@@ -721,7 +738,7 @@ def run(ctx):
     ctx.cov["impl_s"] = round(time.time() - t0, 1)
     missing = [s.label for s in seqs if s.label not in res]
     viol = []            # (seq, op index, what)
-    known = set()
+    known = {}
     if missing:
         viol.append((seqs[0], 0, "harness produced no result for sequences " + ", ".join(missing[:5])))
 
@@ -811,11 +828,11 @@ def run(ctx):
     for fid in sorted(known):
         what = {"F31": "src_reset on converter ids 3/4 (RESET_ON_CLEAR) re-creates the engine at the OLD ratio; a different src_ratio afterwards is refused and the refusal is lost in soxr_set_error: totals follow the old ratio",
                 "F32": "src_error(NULL) dereferences the NULL converter (crash instead of an error code)",
-                "F33": "src_simple copies two uninitialised variables into input_frames_used/output_frames_gen when soxr_create fails (src_ratio <= 0 or NaN)"}[fid]
+                "F33": "src_simple reports non-zero (uninitialised) counts when soxr_create fails (src_ratio <= 0 or NaN)"}[fid]
         if fid in active:
             ctx.known(fid, what)
         else:
-            viol.insert(0, (seqs[0], 0, "finding %s is no longer listed as known: %s" % (fid, what)))
+            viol.insert(0, (known[fid][0], known[fid][1], "%s (finding %s, recorded as fixed in known_findings.d/conv.json, is back)" % (what, fid)))
     nrep = 0
     seen = set()
     for s, k, what in viol:
@@ -857,8 +874,9 @@ def replay(ctx, exe):
     res, stderr = run_harness(exe, [s], jobs=1)
     textm, expect, index = model_lines([s], res)
     got, _ = run_model(textm) if os.path.exists(MODEL) else ([], "")
-    viol, known = [], set()
+    viol, known = [], {}
     falsify(ctx, [s], res, viol, known)
+    viol += [(s, k, "finding %s" % f) for f, (_, k) in known.items()]
     for e, g in zip(expect, got):
         print("real : " + e[:300]); print("model: " + g[:300])
     ctx.count("evaluations", len(s.ops)); ctx.count("distinct_nontrivial", len(set(s.ops))); ctx.cov["rule"] = "replay of one stored sequence"
